@@ -28,18 +28,22 @@
       duplicate-free and in document order by position in the table
       ([C14_edited_nodeset_canonical]), and position in the table is position in the specified
       walk of the store ([C14_table_order_is_walk_order]);
-    - a query of the fragment of C05 that is proved (one predicate-free location path) has the
-      value XPath 1.0 prescribes for the TREE ([C14_edited_path_query_refines_partial]); that
-      value does not read the order keys, so two stores whose tables are equal up to ids, keys and
-      parent pointers -- an edited document and the fresh parse of its serialisation -- give the
-      same rows in the same order ([C14_query_depends_on_tree_only_partial]).
+    - without a document type, every SUPPORTED expression (C05 in full: predicates, all axes but
+      namespace, operators, comparisons, the function library; [supported_b]) evaluated on the
+      edited document has the value XPath 1.0 prescribes for the TREE
+      ([C14_edited_eval_refines_spec]); that value does not read ids, order keys and parent
+      pointers ([C14_spec_query_tree_only]), so two stores whose tables are equal up to those --
+      an edited document and the fresh parse of its serialisation -- give the same boolean,
+      number, string, the same rows in the same order, or both an error
+      ([C14_query_depends_on_tree_only]; [C14_query_depends_on_tree_only_partial] is the earlier
+      statement for predicate-free location paths, with the context returned unchanged).
     NOT proved here: that a fresh parse of the serialisation yields the same tree (C15 / C04:
     [same_tree] of the two tables is a hypothesis of the last theorem; it fails exactly where C15 has
-    its findings, e.g. a text node without characters, [C14_example_empty_text_DD3]), and the
-    rest of C05 (predicates, the other axes, functions: whatever refinement theorem C05 gets
-    transfers by [C14_refined_nodesets_depend_on_tree_only]).  Those stay tested by the [Q]
-    operations of checks/C14.py (queries on the edited document against a re-parse, as pre-order
-    ranks).  Trusted: that [xdoc_of_store] is the table the harness would dump for the real
+    its findings, e.g. a text node without characters, [C14_example_empty_text_DD3]), documents
+    with a document type ([ParentsOk] is false there: the doctype row reports the document as
+    parent), and the expressions C05 does not support (namespace axis, id(), ...).  Those stay
+    tested by the [Q] operations of checks/C14.py (queries on the edited document against a
+    re-parse, as pre-order ranks).  Trusted: that [xdoc_of_store] is the table the harness would dump for the real
     document -- its ingredients ([parent_node], [child_view], [key], [owner_element], attribute
     lists) are tied to the real dom by the `dom` correspondence of C12 / C14 on every run; the walk,
     the in-scope namespaces and the names by the real dumps of [C14_view_is_real_dump]. *)
@@ -47,11 +51,11 @@ From Coq Require Import List NArith Bool Sorting.Sorted.
 From XmlRs Require Import Base.CPred.
 From XmlRs Require Import Model.XPathAst Model.XDoc Model.XPathEval Spec.XPath10
   Proofs.XPathNav Proofs.XPathAstPred Proofs.XPathCanon Proofs.XPathRefine Proofs.XPathRefinePaths
-  Proofs.XPathTreeOnly Proofs.XPathExamples.
+  Proofs.XPathRefineSupp Proofs.XPathRefineEval Proofs.XPathTreeOnly Proofs.XPathExamples.
 From XmlRs Require Import Model.Store Model.StoreCheck Model.StoreView Model.DomOps
   Proofs.DomTree Proofs.DomOpsInv Proofs.DomOrder Proofs.DomOrderInv Proofs.DomCheck Proofs.DomExample Proofs.DomC14
   Proofs.StoreViewBase Proofs.StoreViewWalk Proofs.StoreXDoc Proofs.StoreXDocShape Proofs.StoreXDocNames
-  Proofs.StoreXDocReach Proofs.StoreXDocExample Proofs.StoreXDocDumps.
+  Proofs.StoreXDocReach Proofs.StoreXDocExample Proofs.StoreXDocDumps Proofs.StoreXDocQueries.
 Import ListNotations.
 Open Scope N_scope.
 
@@ -175,6 +179,17 @@ Theorem C14_edited_path_query_refines_partial :
       spec_query (xdoc_of_store F merged s) ns pos size (path_query p) = Some (SNodes (map Row lm)).
 Proof. exact edited_path_query_refines. Qed.
 
+(** C05 in full on the edited document: every supported expression, any context without default
+    namespace binding *)
+Theorem C14_edited_eval_refines_spec :
+  forall (F : sfacts) (merged : bool) (init : world) (ops : list op) (k : N) (s : store),
+    WGood init -> doc_at (run init ops) k = Some s ->
+    doc_element s <> None -> doc_decl s = None ->
+    forall (c : ctx) (e : expr), ns_lookup (c_ns c) None = None -> supported (c_ns c) e ->
+      value_abs (fst (query (xdoc_of_store F merged s) e c)) =
+      spec_query (xdoc_of_store F merged s) (c_ns c) (get_position c) (get_size c) e.
+Proof. exact edited_eval_refines_spec. Qed.
+
 (** the specification does not read ids, order keys and parent pointers: ALL expressions *)
 Theorem C14_spec_query_tree_only :
   forall (d1 d2 : xdoc), same_tree d1 d2 ->
@@ -186,12 +201,40 @@ Proof. exact spec_query_tree_only. Qed.
       forall s2, s2 = the store a parse of [show_doc s1] builds ->
       forall e c, value of [query (table of s1) e c] = value of [query (table of s2) e c]
       (node-sets compared as lists of table positions).
-    Proved part: for the fragment of C05 that is proved, with the fact that belongs to other
+    Proved part: for every expression C05 supports, with the fact that belongs to other
     properties as hypothesis -- the fresh parse yields the same tree ([same_tree] of the tables:
     C15 / C04) and satisfies the invariants ([TreeInv], [OrderInv]: what [WGood] of an initial
     world gives) -- and for documents with a document element and without a document type: the
     edited document and the fresh parse give the same rows in the same order, which are the rows
     XPath 1.0 prescribes. *)
+Theorem C14_query_depends_on_tree_only :
+  forall (F1 F2 : sfacts) (merged : bool) (init : world) (ops : list op) (k : N) (s1 s2 : store),
+    WGood init -> doc_at (run init ops) k = Some s1 ->
+    TreeInv s2 -> OrderInv s2 ->
+    doc_element s1 <> None -> doc_decl s1 = None -> doc_element s2 <> None -> doc_decl s2 = None ->
+    same_tree (xdoc_of_store F1 merged s1) (xdoc_of_store F2 merged s2) ->
+    forall (c1 c2 : ctx) (e : expr),
+      c_ns c1 = c_ns c2 -> get_position c1 = get_position c2 -> get_size c1 = get_size c2 ->
+      ns_lookup (c_ns c1) None = None -> supported (c_ns c1) e ->
+      value_abs (fst (query (xdoc_of_store F1 merged s1) e c1)) =
+      value_abs (fst (query (xdoc_of_store F2 merged s2) e c2)) /\
+      value_abs (fst (query (xdoc_of_store F1 merged s1) e c1)) =
+      spec_query (xdoc_of_store F1 merged s1) (c_ns c1) (get_position c1) (get_size c1) e.
+Proof. exact query_depends_on_tree_only_all. Qed.
+
+(** the same for two arbitrary tables satisfying the hypotheses of C05 *)
+Theorem C14_same_tree_same_value :
+  forall (d1 d2 : xdoc),
+    DocInv d1 -> SpecShape d1 -> ParentsOk d1 -> DocInv d2 -> SpecShape d2 -> ParentsOk d2 ->
+    NamesOk d1 -> same_tree d1 d2 ->
+    forall (c1 c2 : ctx) (e : expr),
+      c_ns c1 = c_ns c2 -> get_position c1 = get_position c2 -> get_size c1 = get_size c2 ->
+      ns_lookup (c_ns c1) None = None -> supported (c_ns c1) e ->
+      value_abs (fst (query d1 e c1)) = value_abs (fst (query d2 e c2)).
+Proof. exact same_tree_same_value. Qed.
+
+(** the earlier statement for queries that are one predicate-free location path: the two values
+    are the same LIST of rows and the contexts are returned unchanged *)
 Theorem C14_query_depends_on_tree_only_partial :
   forall (F1 F2 : sfacts) (merged : bool) (init : world) (ops : list op) (k : N) (s1 s2 : store),
     WGood init -> doc_at (run init ops) k = Some s1 ->
@@ -291,6 +334,22 @@ Proof.
   exact br_query_values.
 Qed.
 
+(** predicates, functions, unions, sibling / following axes: supported expressions (ASTs of the
+    real parser), their values on the edited document are those the REAL evaluator returns on the
+    fresh parse (comments of Proofs/StoreXDocQueries.v) and equal the values on [rp_view] *)
+Example C14_example_supported_queries :
+  supported [] brq_e0 /\ supported [] brq_e2 /\ supported [] brq_e4 /\ supported [] brq_e5 /\
+  fst (query br_view brq_e0 ctx_default) = XDoc.Ok (XNodes [10]) /\
+  fst (query br_view brq_e2 ctx_default) = XDoc.Ok (XNodes [3; 5; 7; 10]) /\
+  fst (query br_view brq_e4 ctx_default) = XDoc.Ok (XNodes [7]) /\
+  fst (query br_view brq_e5 ctx_default) = XDoc.Ok (XNodes [9]) /\
+  fst (query br_view brq_e1 ctx_default) = fst (query rp_view brq_e1 ctx_default).
+Proof.
+  destruct brq_supported as [S0 [_ [S2 [_ [S4 S5]]]]]. destruct brq_values as [V0 [V2 [_ [V4 V5]]]].
+  destruct brq_same_on_fresh_parse as [_ [E1 _]].
+  repeat split; assumption.
+Qed.
+
 Print Assumptions C14_bridge_docinv.
 Print Assumptions C14_bridge_shape.
 Print Assumptions C14_bridge_names.
@@ -302,7 +361,10 @@ Print Assumptions C14_edited_query_canonical.
 Print Assumptions C14_table_order_is_walk_order.
 Print Assumptions C14_view_rows_follow_walk.
 Print Assumptions C14_edited_path_query_refines_partial.
+Print Assumptions C14_edited_eval_refines_spec.
 Print Assumptions C14_spec_query_tree_only.
+Print Assumptions C14_query_depends_on_tree_only.
+Print Assumptions C14_same_tree_same_value.
 Print Assumptions C14_query_depends_on_tree_only_partial.
 Print Assumptions C14_refined_nodesets_depend_on_tree_only.
 Print Assumptions C14_same_tree_same_paths_partial.
